@@ -634,7 +634,7 @@ static void inverse_core(Rec& r, vt::Rng& g, const Ell& E, int cls, double lat1,
   }
 }
 
-static void inverse_law(vt::Rng& g, long long id, const vector<Sym>& syms, bool ext) {
+static void inverse_law(vt::Rng& g, long long id, const vector<Sym>& syms, bool ext, bool astroid = false) {
   Ell E; int cls;
   double lat1, lon1, lat2, lon2;
   if (!ext) {
@@ -654,6 +654,9 @@ static void inverse_law(vt::Rng& g, long long id, const vector<Sym>& syms, bool 
     // a third of the records on the eccentric members fall into the astroid region (regime 17), where the Newton iteration of the
     // inverse problem is hardest and the bisection fallback is reached
     if (!newcls && E.fi == 13 && g.range(0, 2) == 0) cls = 17;
+    // record kind "iy": only the astroid region of the eccentric OBLATE members (b/a = 1/2 .. 1/64), where the bisection fallback of the
+    // inverse problem is entered most often (a fault there shows on a fraction of a percent of these pairs only)
+    if (astroid) { int k = int(g.range(1, 6)); E = ratio_ell(1, 1LL << k, a); cls = 17; }
   }
   double f = E.f;
   switch (cls) {
@@ -737,9 +740,10 @@ int main(int argc, char** argv) {
     for (long long i = 0; i < n; ++i) {
       if (which == "dl") direct_law(g, i, seed, false); else if (which == "il") inverse_law(g, i, syms, false); else if (which == "al") add_law(g, i, false);
       else if (which == "dx") direct_law(gx, i, seed, true); else if (which == "ix") inverse_law(gx, i, syms, true); else if (which == "ax") add_law(gx, i, true);
+      else if (which == "iy") inverse_law(gx, i, syms, true, true);
       else { fprintf(stderr, "unknown record kind %s\n", which.c_str()); return 2; }
     }
     return 0;
   }
-  fprintf(stderr, "usage: drv_geod replay ovlfile < vectors | record seed n symfile dl|il|al|dx|ix|ax ovlfile\n"); return 2;
+  fprintf(stderr, "usage: drv_geod replay ovlfile < vectors | record seed n symfile dl|il|al|dx|ix|ax|iy ovlfile\n"); return 2;
 }
